@@ -275,8 +275,9 @@ Fixpoint emit_fast (build : nat -> list nat -> res shape) (names : list nat) (id
   | (k, segs) :: cs' =>
       match build k (concat segs) with
       | Err e => Err e
-      | Ok (Bare _ _) => Err E_UNSUP      (* extend() of a bare tuple: entries are not pairs *)
-      | Ok (Edges es) =>
+      | Ok sh =>
+          (* a bare edge returned as one tuple is re-packed into a one-element list (fix: commit in /repo) *)
+          let es := edges_of sh in
           match nth_error names k with
           | None => Err E_INDEX
           | Some nm =>
